@@ -1,6 +1,9 @@
 import OtelVerif.Model.C07
 import OtelVerif.Lemmas.C07
 import OtelVerif.Lemmas.C07Map
+import OtelVerif.Lemmas.C07Nest
+import OtelVerif.Model.C07Prim
+import OtelVerif.Model.C07Msg
 import OtelVerif.Gen.PdataCensus
 /-!
 # C07 — data-model copy, move, remove and read-only operations have value semantics
@@ -666,6 +669,279 @@ example : (mapWitness.hd 1).live = [⟨3, .bytes 1⟩, ⟨2, .scalar 0 5⟩] ∧
 example : M.Inv mapWitness := C07_map_separation _ _ M.inv_init (by decide)
 example : (M.abs (M.run mapWitness [.copyTo 0 1, .bytesAppend 1 4 9, .bytesAppend 0 6 7])).val 1
     = [(4, .bytes [4, 9]), (5, .scalar 0 6), (6, .bytes [6])] := by decide
+
+/-! ## part C: nested `pcommon.Value` / `Map` / `Slice` (`Model/C07Nest.lean`): deep copy at every depth
+
+Values hold scalars, bytes wrappers and kvlist / array wrappers whose slots hold values again;
+`pcommon.Slice` is a value slice (struct copies in `RemoveIf` leave aliasing slots beyond `len`).
+`N.Pre d h sv dv`: the source is nested at most `d` deep, the destination's footprint (the wrappers
+reachable from it through live slots) is duplicate-free and disjoint from the source's; nothing is
+assumed of the slots beyond `len` at any level, nor of the destination's shape, kinds or capacities. -/
+
+/-- **deep copy, any depth, any destination**: afterwards the destination shows exactly what the
+source shows (`abs_eq`); only wrappers of the destination's own old footprint and newly allocated
+ones were written (`frame`), so the source and every other value are untouched; the result's
+footprint is duplicate-free and consists of the destination's old footprint and new wrappers only
+(`foot`, `nodup`): it shares nothing with the source or with any other value — full independence -/
+theorem C07_nest_copy_deep (d : Nat) (h : N.Heap) (sv dv : N.V) (pre : N.Pre d h sv dv) :
+    N.Post d h sv dv (N.copyVal d h sv dv) := N.copyVal_spec d h sv dv pre
+
+/-- the same for `Map.CopyTo` / `Slice.CopyTo` between two containers (headers), children nested ≤ `d` deep -/
+theorem C07_nest_copy_container (d : Nat) (h : N.Heap) (src dst : N.Hdr)
+    (hfit : ∀ kv ∈ src.live, N.fits d h kv.val) (hslt : ∀ i ∈ N.reachL d h src.live, i < h.next)
+    (hdlt : ∀ i ∈ N.reachL d h dst.live, i < h.next) (hdnd : (N.reachL d h dst.live).Nodup)
+    (hdis : ∀ i ∈ N.reachL d h src.live, i ∉ N.reachL d h dst.live) :
+    N.HdrPost d h src.live dst.live (N.copyHdrWith (N.copyVal d) h src dst) :=
+  N.copyHdrWith_spec d (N.copyVal d) (N.copyVal_spec d) h src dst hfit hslt hdlt hdnd hdis
+
+/-- a value untouched by the copy (footprint allocated before and disjoint from the destination's)
+reads the same afterwards: the source itself, and every other value -/
+theorem C07_nest_copy_frame (d : Nat) (h : N.Heap) (sv dv x : N.V) (pre : N.Pre d h sv dv)
+    (hlt : ∀ i ∈ N.reachV d h x, i < h.next) (hdis : ∀ i ∈ N.reachV d h x, i ∉ N.reachV d h dv) :
+    N.absV d (N.copyVal d h sv dv).1 x = N.absV d h x ∧ N.reachV d (N.copyVal d h sv dv).1 x = N.reachV d h x := by
+  have post := N.copyVal_spec d h sv dv pre
+  have ag : N.Agree h (N.copyVal d h sv dv).1 (N.reachV d h x) := fun i hi => post.frame i (hlt i hi) (hdis i hi)
+  exact ⟨N.abs_congr d _ _ _ ag, N.reach_congr d _ _ _ ag⟩
+
+/-- root-level programs stay well-formed along the run -/
+def WfRootProg : N.St → List N.Op → Prop
+  | _, [] => True
+  | s, op :: ops => N.WfRootOp s op ∧ WfRootProg (N.step s op).1 ops
+
+/-- forest invariant over the named roots, for every program of whole-value operations (set, deep
+copy between distinct roots, move, in-place bytes edit, mark-read-only) from any well-separated state
+with arbitrarily nested contents -/
+theorem C07_nest_separation (prog : List N.Op) (s : N.St) (hi : N.Inv s) (hw : WfRootProg s prog) : N.Inv (N.run s prog) := by
+  induction prog generalizing s with
+  | nil => exact hi
+  | cons op ops ih => exact ih _ (N.step_root_spec hi op hw.1).1 hw.2
+
+theorem C07_nest_refines (prog : List N.Op) (s : N.St) (hi : N.Inv s) (hw : WfRootProg s prog) :
+    N.abs (N.run s prog) = N.prun (N.abs s) prog := by
+  induction prog generalizing s with
+  | nil => rfl
+  | cons op ops ih =>
+    obtain ⟨h1, h2, _⟩ := N.step_root_spec hi op hw.1
+    simp only [N.run, N.prun]
+    rw [ih _ h1 hw.2, h2]
+
+theorem C07_nest_copy_eq (s : N.St) (hi : N.Inv s) (a b : Nat) (hab : a ≠ b) (hro : s.ro b = false) :
+    N.absRoot (N.step s (.copyVal a (.root a) b (.root b))).1 b = N.absRoot s a ∧
+    ∀ c, c ≠ b → N.absRoot (N.step s (.copyVal a (.root a) b (.root b))).1 c = N.absRoot s c := by
+  have h := (N.step_root_spec hi (.copyVal a (.root a) b (.root b)) ⟨rfl, rfl, hab⟩).2.1
+  have hv : (N.abs (N.step s (.copyVal a (.root a) b (.root b))).1).val = ((N.pstep (N.abs s) (.copyVal a (.root a) b (.root b))).1).val := by rw [h]
+  have hb : (N.abs s).ro b = false := hro
+  simp only [N.pstep, hb, Bool.false_eq_true, ↓reduceIte] at hv
+  constructor
+  · have := congrFun hv b; simpa [N.abs, N.upd_same] using this
+  · intro c hc; have := congrFun hv c; simpa [N.abs, N.upd_other _ _ _ _ hc] using this
+
+/-- read-only, for EVERY operation of the nested model (also those addressing nested containers):
+if the payload whose flag the call checks is read-only the call panics and nothing changes -/
+def nestChecked : N.Op → List Nat
+  | .setRoot r _ | .setSlot r .. | .bytesAppend r .. | .remove r .. | .removeIf r .. | .ensureCap r .. | .clear r _ => [r]
+  | .copyVal _ _ rd _ => [rd]
+  | .copyList _ _ rd _ => [rd]
+  | .moveAppend rs _ rd _ _ => [rs, rd]
+  | .moveRoot a b => [a, b]
+  | .markRO _ => []
+
+theorem C07_nest_readonly (s : N.St) (op : N.Op) (r : Nat) (hro : s.ro r = true) (hr : r ∈ nestChecked op) : N.step s op = (s, true) := by
+  cases op <;> simp only [nestChecked, List.mem_cons, List.not_mem_nil, or_false] at hr <;>
+    first
+      | (subst hr; simp [N.step, hro])
+      | (rcases hr with rfl | rfl <;> simp [N.step, hro])
+      | exact absurd hr (by simp)
+
+/-- non-vacuity: a reachable nested state whose map has a stale slot beyond `len` aliasing a live nested
+map; the deep copy of a longer map into it is equal to its source and the two are independent -/
+def nestWitness : N.St :=
+  N.run N.St.init [.setRoot 1 (.list true), .setSlot 1 0 (.key 1) (.list true) 0, .setSlot 1 1 (.key 1) (.bytes [1]) 0,
+    .setSlot 1 0 (.key 2) (.scalar 0 5) 0, .setSlot 1 0 (.key 3) (.list true) 0, .setSlot 1 3 (.key 1) (.bytes [3]) 0,
+    .remove 1 0 1,
+    .setRoot 0 (.list true), .setSlot 0 5 (.key 4) (.list true) 0, .setSlot 0 6 (.key 1) (.bytes [4]) 0,
+    .setSlot 0 5 (.key 5) (.scalar 0 6) 0, .setSlot 0 5 (.key 6) (.list true) 0, .setSlot 0 8 (.key 1) (.bytes [6]) 0]
+
+example : (nestWitness.h.wl 0).live = [⟨3, .list true 3⟩, ⟨2, .scalar 0 5⟩] ∧ (nestWitness.h.wl 0).tail = [⟨3, .list true 3⟩] := by decide
+example : N.Pre 3 nestWitness.h (nestWitness.root 0) (nestWitness.root 1) :=
+  ⟨by decide, by decide, by decide, by decide, by decide⟩
+example : N.absRoot (N.step nestWitness (.copyVal 0 (.root 0) 1 (.root 1))).1 1 = N.absRoot nestWitness 0 := by decide
+
+/-! ## part D: primitive slices (`Model/C07Prim.lean`): elements by value, arrays re-used by `copyX` -/
+
+theorem P.PSt.ext' (p q : P.PSt) (hv : p.val = q.val) (hr : p.ro = q.ro) : p = q := by
+  cases p; cases q; simp_all
+
+theorem P.abs_upd (s : P.St) (a : Nat) (h' : P.Hdr) :
+    (P.abs { s with hd := upd s.hd a h' }).val = upd (P.abs s).val a h'.live := by
+  funext c; by_cases hc : c = a
+  · subst hc; simp [P.abs, upd_same]
+  · simp [P.abs, upd_other _ _ _ _ hc]
+
+theorem P.appendH_live (h : P.Hdr) (xs : List Nat) (c : Nat) : (P.appendH h xs c).live = h.live ++ xs := by
+  unfold P.appendH; split <;> rfl
+
+theorem P.step_spec (s : P.St) (op : P.Op) :
+    P.abs (P.step s op).1 = (P.pstep (P.abs s) op).1 ∧ (P.step s op).2 = (P.pstep (P.abs s) op).2 := by
+  have habs_ro : (P.abs s).ro = s.ro := rfl
+  cases op with
+  | append a xs c =>
+    simp only [P.step, P.pstep, habs_ro]
+    by_cases hr : s.ro a = true
+    · simp [hr]
+    · simp only [hr, Bool.false_eq_true, ↓reduceIte]
+      exact ⟨P.PSt.ext' _ _ (by rw [P.abs_upd, P.appendH_live]; rfl) rfl, by first | rfl | trivial⟩
+  | setAt a i v =>
+    simp only [P.step, P.pstep, habs_ro]
+    by_cases hr : s.ro a = true
+    · simp [hr]
+    · simp only [hr, Bool.false_eq_true, ↓reduceIte]
+      have hl : ((P.abs s).val a).length = (s.hd a).live.length := rfl
+      rw [hl]
+      by_cases hi : i < (s.hd a).live.length
+      · simp only [hi, ↓reduceIte]
+        exact ⟨P.PSt.ext' _ _ (by rw [P.abs_upd]; rfl) rfl, by first | rfl | trivial⟩
+      · simp only [hi, ↓reduceIte]; exact ⟨by first | rfl | trivial, by first | rfl | trivial⟩
+  | ensureCap a n =>
+    simp only [P.step, P.pstep, habs_ro]
+    by_cases hr : s.ro a = true
+    · simp [hr]
+    · simp only [hr, Bool.false_eq_true, ↓reduceIte]
+      by_cases hn : n ≤ (s.hd a).cap
+      · simp only [hn, ↓reduceIte]; exact ⟨by first | rfl | trivial, by first | rfl | trivial⟩
+      · simp only [hn, ↓reduceIte]
+        refine ⟨P.PSt.ext' _ _ ?_ rfl, by first | rfl | trivial⟩
+        rw [P.abs_upd]; funext c; by_cases hc : c = a
+        · subst hc; simp [P.abs, upd_same]
+        · simp [upd_other _ _ _ _ hc]
+  | fromRaw a xs c =>
+    simp only [P.step, P.pstep, habs_ro]
+    by_cases hr : s.ro a = true
+    · simp [hr]
+    · simp only [hr, Bool.false_eq_true, ↓reduceIte]
+      exact ⟨P.PSt.ext' _ _ (by rw [P.abs_upd, P.overwrite, P.appendH_live]; rfl) rfl, by first | rfl | trivial⟩
+  | copyTo a b c =>
+    simp only [P.step, P.pstep, habs_ro]
+    by_cases hr : s.ro b = true
+    · simp [hr]
+    · simp only [hr, Bool.false_eq_true, ↓reduceIte]
+      exact ⟨P.PSt.ext' _ _ (by rw [P.abs_upd, P.overwrite, P.appendH_live]; rfl) rfl, by first | rfl | trivial⟩
+  | moveTo a b =>
+    simp only [P.step, P.pstep, habs_ro]
+    by_cases hr : (s.ro a || s.ro b) = true
+    · simp [hr]
+    · simp only [hr, Bool.false_eq_true, ↓reduceIte]
+      refine ⟨P.PSt.ext' _ _ ?_ rfl, by first | rfl | trivial⟩
+      have : (P.abs { s with hd := upd (upd s.hd b (s.hd a)) a {} }).val = upd (P.abs { s with hd := upd s.hd b (s.hd a) }).val a [] :=
+        P.abs_upd { s with hd := upd s.hd b (s.hd a) } a {}
+      rw [this, P.abs_upd]; rfl
+  | markRO a => exact ⟨rfl, rfl⟩
+
+/-- primitive slices: every program (append, set-at, ensure-capacity, from-raw, copy-to, move-to,
+mark-read-only; any capacities, any array re-use) shows what plain lists with assignment semantics show -/
+theorem C07_prim_refines (prog : List P.Op) (s : P.St) : P.abs (P.run s prog) = P.prun (P.abs s) prog := by
+  induction prog generalizing s with
+  | nil => rfl
+  | cons op ops ih => simp only [P.run, P.prun]; rw [ih, (P.step_spec s op).1]
+
+theorem C07_prim_step_panics (s : P.St) (op : P.Op) : (P.step s op).2 = (P.pstep (P.abs s) op).2 := (P.step_spec s op).2
+
+theorem C07_prim_copy_eq (s : P.St) (a b c : Nat) (hro : s.ro b = false) :
+    (P.abs (P.step s (.copyTo a b c)).1).val b = (P.abs s).val a ∧
+    ∀ x, x ≠ b → (P.abs (P.step s (.copyTo a b c)).1).val x = (P.abs s).val x := by
+  rw [(P.step_spec s (.copyTo a b c)).1]
+  have : (P.abs s).ro b = false := hro
+  simp only [P.pstep, this, Bool.false_eq_true, ↓reduceIte]
+  exact ⟨upd_same _ _ _, fun x hx => upd_other _ _ _ _ hx⟩
+
+theorem C07_prim_independent (s : P.St) (op : P.Op) (c : Nat) (hc : c ∉ P.targets op) :
+    (P.abs (P.step s op).1).val c = (P.abs s).val c := by
+  rw [(P.step_spec s op).1]
+  cases op <;> simp only [P.targets, List.mem_cons, List.not_mem_nil, or_false, not_or] at hc <;>
+    simp only [P.pstep] <;> (repeat' split) <;> first
+      | rfl
+      | simp [upd_other _ _ _ _ hc]
+      | simp [upd_other _ _ _ _ hc.1, upd_other _ _ _ _ hc.2]
+
+theorem C07_prim_readonly (s : P.St) (op : P.Op) (a : Nat) (hro : s.ro a = true) (ha : a ∈ P.targets op) : P.step s op = (s, true) := by
+  cases op <;> simp only [P.targets, List.mem_cons, List.not_mem_nil, or_false] at ha <;>
+    first
+      | (subst ha; simp [P.step, hro])
+      | (rcases ha with rfl | rfl <;> simp [P.step, hro])
+      | exact absurd ha (by simp)
+
+theorem C07_prim_check_sound (H : Nat) (before : P.PSt) (op : P.Op) (after : Nat → List Nat) (p : Bool)
+    (h : P.obsStep H before op after p = true) :
+    (P.pstep before op).2 = p ∧ ∀ a, a < H → (P.pstep before op).1.val a = after a := by
+  simp only [P.obsStep, P.eqUpTo, Bool.and_eq_true, beq_iff_eq, List.all_eq_true, List.mem_range] at h
+  exact ⟨h.1, fun a ha => h.2 a ha⟩
+
+example : (P.abs (P.run P.St.init [.append 0 [1, 2, 3] 4, .fromRaw 1 [7] 1, .copyTo 1 0 0, .append 0 [9] 0, .setAt 1 0 5, .moveTo 0 2])).val 2 = [7, 9] ∧
+    ((P.run P.St.init [.append 0 [1, 2, 3] 4, .fromRaw 1 [7] 1, .copyTo 1 0 0]).hd 0).tail = [2, 3, 0] := by decide
+
+/-! ## part E: generated message structs with optional and one-of fields (`Model/C07Msg.lean`)
+
+The schema `Gen.PdataMsg.msgs` is regenerated on every run from the generated `CopyTo`/`MoveTo` bodies
+(every statement must have one of four known shapes, else the translator fails). -/
+
+theorem Msg.copyField_eq (k : Gen.PdataMsg.Kind) (s d : Msg.FV) (hc : Msg.clears k = true) (ht : Msg.typed k s = true) :
+    Msg.copyField k s d = s := by
+  cases k <;> cases s <;> simp_all [Msg.copyField, Msg.typed, Msg.clears] <;>
+    (rename_i o; cases o <;> simp_all)
+
+/-- for ANY schema whose optional / one-of fields have the clearing branch: copying a message into
+any destination of the same shape (whatever optional fields / one-of alternative it carried) makes
+it equal to the source -/
+theorem C07_msg_copy_eq (ks : List Gen.PdataMsg.Kind) (src dst : List Msg.FV)
+    (hc : ∀ k ∈ ks, Msg.clears k = true) (ht : Msg.wellTyped ks src = true) (hl : dst.length = src.length) :
+    Msg.copyMsg ks src dst = src := by
+  induction ks generalizing src dst with
+  | nil => cases src <;> simp_all [Msg.wellTyped, Msg.copyMsg]
+  | cons k ks ih =>
+    cases src with
+    | nil => simp [Msg.wellTyped] at ht
+    | cons s ss =>
+      cases dst with
+      | nil => simp at hl
+      | cons d ds =>
+        simp only [Msg.wellTyped, Bool.and_eq_true] at ht
+        simp only [Msg.copyMsg]
+        rw [Msg.copyField_eq k s d (hc k List.mem_cons_self) ht.1,
+          ih ss ds (fun k' hk' => hc k' (List.mem_cons_of_mem _ hk')) ht.2 (by simpa using hl)]
+
+/-- tie to the current source: in every one of the generated message structs every optional / one-of
+field has the clearing branch, `CopyTo` mentions every setter and every wrapper getter of the struct
+(no field forgotten), and `MoveTo` is `*dest = *ms; *ms = T{}` -/
+theorem C07_msg_schema_good :
+    ∀ m ∈ Gen.PdataMsg.msgs, (∀ f ∈ m.fields, Msg.clears f.2 = true) ∧ m.uncovered = [] ∧ m.moveOk = true := by decide
+
+theorem C07_msg_schema_nonvacuous :
+    30 ≤ Gen.PdataMsg.msgs.length ∧
+    Gen.PdataMsg.tableOptional ≤ ((Gen.PdataMsg.msgs.flatMap (·.fields)).filter (fun f => match f.2 with | .optional _ => true | _ => false)).length ∧
+    Gen.PdataMsg.tableOneOf ≤ ((Gen.PdataMsg.msgs.flatMap (·.fields)).filter (fun f => match f.2 with | .oneof _ _ => true | _ => false)).length := by
+  decide
+
+/-- hence for every generated message struct: `CopyTo` into any destination yields the source -/
+theorem C07_msg_all_copy_eq (m : Gen.PdataMsg.Msg) (hm : m ∈ Gen.PdataMsg.msgs) (src dst : List Msg.FV)
+    (ht : Msg.wellTyped (m.fields.map (·.2)) src = true) (hl : dst.length = src.length) :
+    Msg.copyMsg (m.fields.map (·.2)) src dst = src := by
+  apply C07_msg_copy_eq _ _ _ _ ht hl
+  intro k hk
+  obtain ⟨f, hf, rfl⟩ := List.mem_map.mp hk
+  exact (C07_msg_schema_good m hm).1 f hf
+
+/-- moving transfers the content and leaves the source empty -/
+theorem C07_msg_move (ks : List Gen.PdataMsg.Kind) (src dst : List Msg.FV) :
+    (Msg.moveMsg ks src dst).2 = src ∧ (Msg.moveMsg ks src dst).1 = ks.map Msg.zeroOf := ⟨rfl, rfl⟩
+
+/-- what the repair was for: without the clearing branch (the pinned generator) a destination that
+carries the optional field / a one-of alternative keeps it -/
+theorem C07_msg_pinned_copy_fails :
+    Msg.copyMsg [.optional false] [.opt none] [.opt (some 7)] ≠ [.opt none] ∧
+    Msg.copyMsg [.oneof 2 false] [.one none] [.one (some (1, 3))] ≠ [.one none] := by decide
+
+example : Msg.copyMsg [.prim, .optional true, .oneof 2 true, .nested] [.prim 1, .opt none, .one (some (0, 4)), .nested 9]
+    [.prim 5, .opt (some 2), .one (some (1, 8)), .nested 3] = [.prim 1, .opt none, .one (some (0, 4)), .nested 9] := by decide
 
 /-! ## tie of the read-only clause to the source (regenerated census, `Gen/PdataCensus.lean`)
 
